@@ -91,6 +91,19 @@ package store
 //@   params collection iteratee
 //@   modifies nothing
 
+// the task records handed to get / list are decoded ones: non-nil
+//@ func GetTaskInfo
+//@   props C18
+//@   requires taskInfoStore != nil
+//@   ensures result1 == nil ==> result0 != nil
+//@   modifies fresh(meta.TaskInfo.*), fresh([]*meta.TaskInfo)
+
+//@ func GetAllTaskInfo
+//@   props C18
+//@   requires taskInfoStore != nil
+//@   ensures forall i int :: 0 <= i && i < len(result0) ==> result0[i] != nil
+//@   modifies fresh(meta.TaskInfo.*), fresh([]*meta.TaskInfo)
+
 //@ func UpdateTaskState
 //@   props C11 C12 C06
 //@   requires taskInfoStore != nil
